@@ -3,5 +3,5 @@
 cd "$(dirname "$0")/.." || exit 2
 for id in "$@"; do
   echo "== $id"
-  /venv/bin/python tools/seedcheck.py "seeded/$id" --skip-confirm --rerun "$id" 2>&1 | grep -v conda | grep "^target\|^  \[" | cut -c1-330
+  /venv/bin/python tools/seedcheck.py "seeded/$id" --skip-confirm --rerun "$id" 2>&1 | grep -v conda | grep "^target\|^BENIGN\|^  \[" | cut -c1-330
 done
